@@ -5,7 +5,17 @@ EXTENDS TraceBase, P_C18
 VARIABLE l
 Init == l = 1
 StepCase(e)    == e.ev = "case"
-StepCurve(e)   == e.ev = "curve" /\ Report(e.case, CurveFails(e), [kind |-> e.kind, box |-> e.box, rad |-> e.rad])
+\* DRIFT: the recorded contains() set of small circles / ellipses vs the transcribed closed forms of EGCurve
+\* (binds MC_C05 / MC_C06 / MC_C18, which explore those transcriptions, to the code)
+TranscribedSet(e) ==
+  LET g == Grow(e.box, 2)
+      S == { p \in PointsOf(g) : IF e.kind = "circle" THEN CircleContainsT(<<e.box[1], e.box[2]>>, e.box[3], p)
+                                                        ELSE EllipseContainsT(<<e.box[1], e.box[2]>>, <<e.box[3], e.box[4]>>, p) }
+  IN RunsOfSet(S, g)
+StepCurve(e)   == /\ e.ev = "curve"
+                  /\ Report(e.case, CurveFails(e), [kind |-> e.kind, box |-> e.box, rad |-> e.rad])
+                  /\ DriftReport(e.case, e.kind = "rrect" \/ e.box[3] > 40 \/ e.box[4] > 40 \/ e.set = TranscribedSet(e),
+                                 "circle_or_ellipse_contains_transcription", [kind |-> e.kind, box |-> e.box])
 StepEq(e)      == e.ev = "eq" /\ Report(e.case, EqFails(e), [what |-> e.what])
 StepConfine(e) == e.ev = "confine" /\ Report(e.case, ConfineFails(e), [size |-> e.size, rout |-> e.rout])
 StepAng(e)     == e.ev = "ang" /\ Report(e.case, AngFails(e), [kind |-> e.kind, d |-> e.d, a0 |-> e.a0, sw |-> e.sw])
